@@ -180,3 +180,50 @@ package internal
 //@ ring_out y2 == Y*Y
 //@ ring_out x == X
 //@ ring_out y == Y
+
+// ---------------------------------------------------------------------------------------------
+// Window extraction of the fixed-base comb (property C14): bit j of the 256-bit big-endian scalar.
+// ---------------------------------------------------------------------------------------------
+//@ define k256(k) = cat(k[0], k[1], k[2], k[3], k[4], k[5], k[6], k[7], k[8], k[9], k[10], k[11], k[12], k[13], k[14], k[15], k[16], k[17], k[18], k[19], k[20], k[21], k[22], k[23], k[24], k[25], k[26], k[27], k[28], k[29], k[30], k[31])
+//@ define kbit(k, j) = ext(0, 0, k256(k) >> zx(256, j))
+
+//@ func sm2/internal.extractBit
+//@ mode bv
+//@ requires len: len(k) == 32
+//@ requires idx: 0 <= idx && idx < 256
+//@ ensures bit: ext(0, 0, result) == kbit(k, idx)
+//@ ensures hi: ext(7, 1, result) == bvc(7, 0)
+//@ assigns nothing
+
+//@ func sm2/internal.extractHigherBits
+//@ mode bv
+//@ requires len: len(k) == 32
+//@ requires win: 0 <= window && window <= 8
+//@ requires step: 0 <= stepSize && stepSize <= 256 && 0 <= idx && idx < 256
+//@ requires top: window > 0 ==> (window - 1) * stepSize + idx < 256
+//@ ensures b0: ext(0, 0, result) == ite(0 < window, kbit(k, 0*stepSize + idx), bvc(1, 0))
+//@ ensures b1: ext(1, 1, result) == ite(1 < window, kbit(k, 1*stepSize + idx), bvc(1, 0))
+//@ ensures b2: ext(2, 2, result) == ite(2 < window, kbit(k, 2*stepSize + idx), bvc(1, 0))
+//@ ensures b3: ext(3, 3, result) == ite(3 < window, kbit(k, 3*stepSize + idx), bvc(1, 0))
+//@ ensures b4: ext(4, 4, result) == ite(4 < window, kbit(k, 4*stepSize + idx), bvc(1, 0))
+//@ ensures b5: ext(5, 5, result) == ite(5 < window, kbit(k, 5*stepSize + idx), bvc(1, 0))
+//@ ensures b6: ext(6, 6, result) == ite(6 < window, kbit(k, 6*stepSize + idx), bvc(1, 0))
+//@ ensures b7: ext(7, 7, result) == ite(7 < window, kbit(k, 7*stepSize + idx), bvc(1, 0))
+//@ assigns nothing
+//@ loop 1
+//@ invariant i: 0 <= i && i <= window
+//@ invariant b0: ext(0, 0, bits) == ite(0 < i, kbit(k, 0*stepSize + idx), bvc(1, 0))
+//@ invariant b1: ext(1, 1, bits) == ite(1 < i, kbit(k, 1*stepSize + idx), bvc(1, 0))
+//@ invariant b2: ext(2, 2, bits) == ite(2 < i, kbit(k, 2*stepSize + idx), bvc(1, 0))
+//@ invariant b3: ext(3, 3, bits) == ite(3 < i, kbit(k, 3*stepSize + idx), bvc(1, 0))
+//@ invariant b4: ext(4, 4, bits) == ite(4 < i, kbit(k, 4*stepSize + idx), bvc(1, 0))
+//@ invariant b5: ext(5, 5, bits) == ite(5 < i, kbit(k, 5*stepSize + idx), bvc(1, 0))
+//@ invariant b6: ext(6, 6, bits) == ite(6 < i, kbit(k, 6*stepSize + idx), bvc(1, 0))
+//@ invariant b7: ext(7, 7, bits) == ite(7 < i, kbit(k, 7*stepSize + idx), bvc(1, 0))
+
+//@ func sm2/internal.extractLowerBits
+//@ mode bv
+//@ requires len: len(k) == 32
+//@ requires cnt: 0 <= count && count <= 8
+//@ ensures low: zx(256, result) == k256(k) & ((bvc(256, 1) << zx(256, count)) - bvc(256, 1))
+//@ assigns nothing
